@@ -339,6 +339,17 @@ Proof. exists two_writers. vm_compute. reflexivity. Qed.
 Example two_writers_blocked_by_mutex : drun true d_init two_writers = None.
 Proof. vm_compute. reflexivity. Qed.
 
+(* ---- (3) two first subscribers of one swamp -------------------------------------------------- *)
+(* both calls return successfully, only the second client is registered *)
+Theorem first_subscribers_race_loses_one :
+  exists tr, s_map (srun tr) = Some [2%N] /\
+             tr = [SLoad 1; SLoad 2; SStore 1; SStore 2].
+Proof. eexists. split; [|reflexivity]. vm_compute. reflexivity. Qed.
+
+Example subscribers_one_after_the_other :
+  s_map (srun [SLoad 1; SStore 1; SLoad 2; SStore 2]) = Some [1%N; 2%N].
+Proof. vm_compute. reflexivity. Qed.
+
 (* ---- non-vacuity ------------------------------------------------------------------------------- *)
 Definition ex_hist : list hstep :=
   [HWrite 1 StNew 10 100; HSub 7; HWrite 1 StModified 11 2000000123; HWrite 2 StNew 5 3000000000;
